@@ -34,7 +34,7 @@ REQUIRED_CLAUSES = [
     'outcome-equals-model', 'illegal-call-raises-RuntimeError', 'illegal-call-leaves-watch-unchanged',
     'elapsed-nonnegative', 'elapsed-nonnegative-backwards-clock', 'elapsed-le-maximum',
     'elapsed-is-distance-from-last-restart-while-running', 'elapsed-is-distance-to-stop-instant-while-stopped',
-    'decimal-readings-consistency', 'leftover-is-max0-duration-minus-elapsed', 'leftover-nonnegative-backwards-clock',
+    'two-watches-interleaved', 'decimal-readings-consistency', 'leftover-is-max0-duration-minus-elapsed', 'leftover-nonnegative-backwards-clock',
     'leftover-without-duration', 'expired-iff-elapsed-exceeds-duration', 'expired-false-without-duration',
     'observable-state-equals-model', 'splits-nondecreasing-lengths-are-differences',
     'splits-cleared-by-restart', 'illegal-call-raises-RuntimeError-backwards-clock',
@@ -388,13 +388,24 @@ def _evaluate(K, case):
         K.path = [0] * len(seq)
     path = K.path
     left_new = False
+    second = case.get('second')
+    if second:
+        # a second watch alive at the same time, with its own duration and its own call sequence interleaved call by
+        # call: each watch obeys its own model (nothing is shared between instances)
+        w2, m2 = K.SW(second['duration']), WatchModel(second['duration'])
+        seq2 = [OPS.index(name) for name in second['sequence']]
+        K.bump('two-watches-interleaved')
     for i, op in enumerate(seq):
         path[i] = op
         K.depth = i + 1
         call_and_check(K, w, m, op, times[i + 1])
         left_new = left_new or m.state != NEW
-    ctx.case((tuple(seq), duration, tuple(steps), times[0], K.maximum, K.exit_args[0] is not None, K.kw),
-             nontrivial=left_new)
+        if second and i < len(seq2):
+            path[i] = seq2[i]
+            call_and_check(K, w2, m2, seq2[i], times[i + 1])
+            path[i] = op
+    ctx.case((tuple(seq), duration, tuple(steps), times[0], K.maximum, K.exit_args[0] is not None, K.kw,
+              repr(second) if second else None), nontrivial=left_new)
     K.exit_args = (None, None, None)
     K.kw = True
 
@@ -686,7 +697,12 @@ def run(ctx):
             idx += 1
             if ctx.mine(idx):
                 # one stream per sequence: a worker generates only its own sequences
-                case = random_case(ctx.rng('random-sequence-%d' % i), backwards=i >= n_mono)
+                crng = ctx.rng('random-sequence-%d' % i)
+                case = random_case(crng, backwards=i >= n_mono)
+                if i % 4 == 0 and i < n_mono and len(case['steps']) <= 60:
+                    other = random_case(crng, backwards=False)
+                    case['second'] = {'duration': other['duration'],
+                                      'sequence': other['sequence'][:len(case['sequence'])]}
                 if len(case['steps']) <= 16:
                     ctx.sample('random-backwards' if i >= n_mono else 'random', case)
                 ctx.h('random sequence length', '%3d-%3d' % (len(case['steps']) // 50 * 50,
